@@ -104,7 +104,8 @@ def setup(ck, ctx):
     ck.extra["functions_in_scope"] = len(ctx["scope"])
     ck.extra["functions_analysed_by_intervals"] = len(res)
     ck.floor("P1", len(pseen), 30, "workspace functions reachable from the FEN/SAN readers")
-    ck.floor("P1", len(useen), 35, "workspace functions reachable from the UCI loop (text layer)")
+    # (35 on the reference tree; the floor leaves room for a refactor that routes the writers through one helper)
+    ck.floor("P1", len(useen), 25, "workspace functions reachable from the UCI loop (text layer)")
 
 
 # ---------------------------------------------------------------------------------------------- P1
